@@ -142,7 +142,13 @@ def gen_cases(rng, tier):
             else: cur = pep_ver(rng)
             if rng.random() < 0.03: req = rng.choice(BAD_VERS)
             yield {'op': 'compat', 'req': req, 'cur': cur, 'sm': rng.random() < 0.5}
-        else: yield {'op': 'pred', 'p': rand_pred(rng), 'v': pep_ver(rng) if rng.random() < 0.95 else rng.choice(BAD_VERS)}
+        else:
+            p = rand_pred(rng)
+            q = rng.random()
+            used = re.findall(r'(?:<=|>=|<|>|!=|==)\s*([^\s,]+)', p)
+            # the boundary of every comparison is the version named in the predicate itself
+            v = rng.choice(used) if used and q < 0.35 else (rng.choice(BAD_VERS) if q > 0.96 else pep_ver(rng))
+            yield {'op': 'pred', 'p': p, 'v': v}
     yield {'op': 'roundtrip', 'v': []}
 
 def _call(f, *a):
